@@ -4,7 +4,9 @@ import (
 	"go/constant"
 	"go/token"
 	"go/types"
+	"regexp"
 	"regexp/syntax"
+	"strconv"
 	"strings"
 
 	"golang.org/x/tools/go/ssa"
@@ -17,8 +19,8 @@ import (
 func (c *Ctx) unitFuncs() []*ssa.Function {
 	var out []*ssa.Function
 	for _, fn := range c.M.Funcs {
-		k := c.M.Key(fn)
-		if strings.HasPrefix(k, "schema.UnitsDefinition.") || strings.HasPrefix(k, "schema.UnitDefinition.") || strings.HasPrefix(k, "schema.formatNumberUnit") {
+		// every function declared in the units file (methods, helpers and generic renderers, whatever they are called)
+		if strings.HasSuffix(strings.SplitN(c.M.Pos(fn.Pos()), ":", 2)[0], "schema/units.go") {
 			out = append(out, fn)
 		}
 	}
@@ -101,9 +103,103 @@ func (c *Ctx) ruleGrammar(rule string) {
 			}
 		}
 	}
+	c.groupNameClause(rule)
 	if n == 0 {
 		c.R.Note("%s: the unit parser no longer builds a regexp from templates; clause withdrawn for this run", rule)
 		c.R.Unresolved(rule, "regexp templates of the unit parser")
+	}
+}
+
+var namedGroupRe = regexp.MustCompile(`\(\?P<([^>]*)>`)
+
+// groupNameClause: a count group whose name is generated from the multiplier ("g%s" <- "%d" of the multiplier) must not
+// be able to take the name of a fixed group of the same grammar ("g1", the base unit): Go's regexp accepts duplicate
+// names, the name -> index table keeps the last one, and the base unit's count is then read from the wrong group or
+// counted twice (multiplier 1: "5x" parses as 10). Discharge: on every path to the template a branch condition
+// excludes each colliding multiplier value (m >= N+1, or m != N).
+func (c *Ctx) groupNameClause(rule string) {
+	for _, fn := range c.unitFuncs() {
+		type tmplSite struct {
+			call *ssa.Call
+			name string
+		}
+		var dynamic []tmplSite
+		var fixed []string
+		for _, b := range fn.Blocks {
+			for _, in := range b.Instrs {
+				call, ok := in.(*ssa.Call)
+				if !ok || core.StaticCalleeName(&call.Call) != "fmt.Sprintf" {
+					continue
+				}
+				tmpl, ok := core.ConstString(call.Call.Args[0])
+				if !ok {
+					continue
+				}
+				for _, m := range namedGroupRe.FindAllStringSubmatch(tmpl, -1) {
+					if strings.Contains(m[1], "%") {
+						dynamic = append(dynamic, tmplSite{call, m[1]})
+					} else {
+						fixed = append(fixed, m[1])
+					}
+				}
+			}
+		}
+		for i, d := range dynamic {
+			k := key(rule, c.M.Key(fn), sprintf("generated group name %q #%d cannot take the name of a fixed group", d.name, i+1))
+			pos := c.M.InstrPos(d.call)
+			// which multiplier values make the generated name equal to a fixed one
+			pat, err := regexp.Compile("^" + strings.NewReplacer("%s", "(-?[0-9]+)", "%d", "(-?[0-9]+)").Replace(regexp.QuoteMeta(d.name)) + "$")
+			if err != nil {
+				c.R.Bad(rule, k, pos, "cannot read the generated group name", "undecided = fail")
+				continue
+			}
+			var collide []int64
+			for _, f := range fixed {
+				if m := pat.FindStringSubmatch(f); m != nil {
+					if v, err := strconv.ParseInt(m[1], 10, 64); err == nil {
+						collide = append(collide, v)
+					}
+				}
+			}
+			if len(collide) == 0 {
+				c.R.Ok(rule, k, pos, "generated count-group name", "no fixed group of the grammar has a name of the generated form")
+				continue
+			}
+			// the multiplier: the int64 element of the ranged-over slice in the loop that contains the template
+			var mult ssa.Value
+			for _, b := range fn.Blocks {
+				for _, in := range b.Instrs {
+					if ld, ok := in.(*ssa.UnOp); ok && ld.Op == token.MUL && isIntegerType(ld.Type()) {
+						if _, ok := ld.X.(*ssa.IndexAddr); ok && blockInLoop(b) {
+							mult = ld
+						}
+					}
+				}
+			}
+			if mult == nil {
+				c.R.Bad(rule, k, pos, "cannot identify the multiplier the group name is generated from", "undecided = fail")
+				continue
+			}
+			missing := ""
+			for _, n := range collide {
+				excl := func(cond core.Cond) bool {
+					if atLeastFact(mult, n+1)(cond) {
+						return true
+					}
+					op, kk, ok := normCond(cond, mult)
+					return ok && op == token.NEQ && kk == n
+				}
+				if !core.MustHold(fn, excl)[d.call.Block()] {
+					missing = sprintf("%d", n)
+				}
+			}
+			if missing == "" {
+				c.R.Ok(rule, k, pos, "generated count-group name", sprintf("on every path to the template a branch condition excludes the multiplier value(s) %v whose group would shadow a fixed group", collide))
+			} else {
+				c.R.Bad(rule, k, pos, "a multiplier of "+missing+" generates a count group with the name of the base unit's group",
+					"regexp accepts the duplicate name, the name table keeps one index: with multiplier "+missing+" \"5x\" is counted twice (ParseInt returns 10) instead of being rejected")
+			}
+		}
 	}
 }
 
@@ -408,6 +504,63 @@ func (c *Ctx) ruleTrim(rule string) {
 		}
 	}
 	c.R.Note("%s: %d digit-trimming call(s) examined", rule, n)
+	// every fixed-precision float rendering is trimmed: the grammar's count groups of the larger units accept digits
+	// only, so "1.000000minute" (an untrimmed %f of a whole count) cannot be parsed back
+	for _, fn := range c.unitFuncs() {
+		idx := 0
+		for _, b := range fn.Blocks {
+			for _, in := range b.Instrs {
+				call, ok := in.(*ssa.Call)
+				if !ok || core.StaticCalleeName(&call.Call) != "fmt.Sprintf" || !mayBeFloatVerb(call.Call.Args[0], 0) {
+					continue
+				}
+				idx++
+				k := key(rule, c.M.Key(fn), sprintf("fixed-precision float rendering #%d is trimmed", idx))
+				if flowsToTrim(call, map[ssa.Value]bool{}) {
+					c.R.Ok(rule, k, c.M.InstrPos(call), "%f rendering of an amount", "its result is handed to strings.Trim*: whole counts are rendered without a fractional part, as the grammar of the larger units requires")
+				} else {
+					c.R.Bad(rule, k, c.M.InstrPos(call), "a %f rendering of an amount is used untrimmed",
+						"FormatLongFloat(60) on a seconds-based set yields \"1.000000minute\"; the count groups of the larger units accept digits only, so the formatter's own output is rejected by the parser")
+				}
+			}
+		}
+	}
+	c.R.Floor(rule, 2)
+}
+
+// mayBeFloatVerb: the format string (a constant or a merge of constants) contains a fixed-precision float verb.
+func mayBeFloatVerb(v ssa.Value, depth int) bool {
+	if s, ok := core.ConstString(v); ok {
+		return strings.Contains(s, "%f") || strings.Contains(s, "%.")
+	}
+	if phi, ok := v.(*ssa.Phi); ok && depth < 4 {
+		for _, e := range phi.Edges {
+			if mayBeFloatVerb(e, depth+1) {
+				return true
+			}
+		}
+	}
+	return false
+}
+
+func flowsToTrim(v ssa.Value, seen map[ssa.Value]bool) bool {
+	if seen[v] || v.Referrers() == nil {
+		return false
+	}
+	seen[v] = true
+	for _, r := range *v.Referrers() {
+		switch x := r.(type) {
+		case *ssa.Call:
+			if strings.HasPrefix(core.StaticCalleeName(&x.Call), "strings.Trim") && len(x.Call.Args) > 0 && x.Call.Args[0] == v {
+				return true
+			}
+		case *ssa.Phi:
+			if flowsToTrim(x, seen) {
+				return true
+			}
+		}
+	}
+	return false
 }
 
 // R-SIBLING: the four UnitsDefinition.Format* functions perform the same computation: inside the loop over the
@@ -454,9 +607,38 @@ func (c *Ctx) ruleSibling(rule string) {
 			c.R.Bad(rule, k, c.M.InstrPos(inLoop[0]), "the per-unit formatter receives the running remainder instead of the per-unit quotient",
 				name+"(90) on a seconds-based set prints the remainder for every unit (\"...30minutes30seconds\"): formatting is no longer the inverse of parsing; the sibling formatters pass the quotient")
 		case fromFloor:
-			c.R.Ok(rule, k, c.M.InstrPos(inLoop[0]), "per-unit amount", "derived from the math.Floor quotient, as in the three sibling formatters")
+			c.R.Ok(rule, k, c.M.InstrPos(inLoop[0]), "per-unit amount", "derived from the quotient (math.Floor of the division, or an integer division), as in the sibling formatters")
 		default:
 			c.R.Bad(rule, k, c.M.InstrPos(inLoop[0]), "the per-unit amount is neither the quotient nor recognisable", "undecided = fail")
+		}
+	}
+	// integer formatters compute in integers: int64 -> float64 loses precision above 2^53, the floor of the float
+	// quotient then exceeds the true quotient and the remainder goes negative ("13PB-1TB1023GB...")
+	for _, name := range []string{"FormatShortInt", "FormatLongInt"} {
+		fn := c.M.FuncByKey["schema.UnitsDefinition."+name]
+		if fn == nil {
+			continue
+		}
+		k := key(rule, "schema.UnitsDefinition."+name, "the integer formatter does not go through float64")
+		bad := ""
+		for _, b := range fn.Blocks {
+			for _, in := range b.Instrs {
+				cv, ok := in.(*ssa.Convert)
+				if !ok {
+					continue
+				}
+				from, ok1 := cv.X.Type().Underlying().(*types.Basic)
+				to, ok2 := cv.Type().Underlying().(*types.Basic)
+				if ok1 && ok2 && from.Info()&types.IsInteger != 0 && to.Info()&types.IsFloat != 0 {
+					bad = c.M.InstrPos(cv)
+				}
+			}
+		}
+		if bad == "" {
+			c.R.Ok(rule, k, c.M.Pos(fn.Pos()), "integer unit formatter", "no integer-to-float conversion: quotient and remainder are exact")
+		} else {
+			c.R.Bad(rule, k, bad, "the integer formatter converts the amount to float64",
+				"above 2^53 the conversion rounds; the floor of the float quotient can exceed the true quotient, the remainder becomes negative and the output (\"13PB-1TB1023GB...\") cannot be parsed back")
 		}
 	}
 	c.R.Floor(rule, 4)
@@ -471,9 +653,11 @@ func numericArg(call *ssa.Call) ssa.Value {
 	return nil
 }
 
-// derivesFrom: whether v is computed from a math.Floor result / from a phi (loop-carried value), looking through conversions.
+// derivesFrom classifies the per-unit amount: floor = it is computed from the quotient (math.Floor of a division, an
+// integer division, possibly adjusted by a constant, merged over branches, or returned by a helper); phi = the running
+// remainder flows into it (the loop-carried phi of the multiplier loop, or inside a helper the undivided parameter).
 func derivesFrom(v ssa.Value, depth int) (floor bool, phi bool) {
-	if v == nil || depth > 6 {
+	if v == nil || depth > 8 {
 		return
 	}
 	switch x := v.(type) {
@@ -481,16 +665,63 @@ func derivesFrom(v ssa.Value, depth int) (floor bool, phi bool) {
 		return derivesFrom(x.X, depth+1)
 	case *ssa.ChangeType:
 		return derivesFrom(x.X, depth+1)
+	case *ssa.Parameter:
+		return false, true
+	case *ssa.Extract:
+		if call, ok := x.Tuple.(*ssa.Call); ok {
+			return helperResult(call, x.Index, depth)
+		}
 	case *ssa.Call:
-		if core.StaticCalleeName(&x.Call) == "math.Floor" {
+		if core.StaticCalleeName(&x.Call) == "math.Floor" && len(x.Call.Args) == 1 {
+			if q, ok := x.Call.Args[0].(*ssa.BinOp); ok && q.Op == token.QUO {
+				return true, false
+			}
+			return derivesFrom(x.Call.Args[0], depth+1)
+		}
+		return helperResult(x, 0, depth)
+	case *ssa.Phi:
+		if isLoopHeader(x.Block()) {
+			return false, true
+		}
+		for _, e := range x.Edges {
+			f, p := derivesFrom(e, depth+1)
+			floor = floor || f
+			phi = phi || p
+		}
+		return
+	case *ssa.BinOp:
+		if x.Op == token.QUO {
 			return true, false
 		}
-	case *ssa.Phi:
-		return false, true
-	case *ssa.BinOp:
 		f1, p1 := derivesFrom(x.X, depth+1)
 		f2, p2 := derivesFrom(x.Y, depth+1)
 		return f1 || f2, p1 || p2
 	}
 	return
+}
+
+// helperResult: result #idx of a static call to a repo function with a body, classified over all its returns.
+func helperResult(call *ssa.Call, idx int, depth int) (floor bool, phi bool) {
+	callee, ok := call.Call.Value.(*ssa.Function)
+	if !ok || len(callee.Blocks) == 0 || depth > 3 {
+		return
+	}
+	for _, r := range core.ReturnsOf(callee) {
+		if idx >= len(r.Results) {
+			continue
+		}
+		f, p := derivesFrom(core.RetVal(r, idx), depth+3)
+		floor = floor || f
+		phi = phi || p
+	}
+	return
+}
+
+func isLoopHeader(b *ssa.BasicBlock) bool {
+	for _, p := range b.Preds {
+		if b.Dominates(p) {
+			return true
+		}
+	}
+	return false
 }
